@@ -16,3 +16,20 @@ def register(m):
     m("C02", "c02-inline-ok", LAW,
       "    result_force_expr = solve(law, force, dict=True)[0][force]\n    result_expr = result_force_expr.subs({mass: mass_, acceleration: acceleration_})\n    return Quantity(result_expr)",
       "    return Quantity(solve(law, force, dict=True)[0][force].subs({mass: mass_, acceleration: acceleration_}))", "SILENT")
+
+
+def _more(m):
+    SP = "symplyphysics/laws/dynamics/springs/vector/spring_reaction_is_proportional_to_deformation.py"
+    m("C02", "c02-inverse-sign-dropped", SP, "    return scale_vector(-1 / stiffness, force_)", "    return scale_vector(1 / stiffness, force_)", "P6")
+    m("C02", "c02-wavevector-not-inverse", "symplyphysics/laws/waves/vector/phase_velocity_from_angular_velocity_and_wavevector.py",
+      "        angular_frequency / phase_speed_**2,", "        angular_frequency / phase_speed_,", "P6")
+    m("C02", "c02-transfer-velocity-inverse", "symplyphysics/laws/kinematics/vector/velocity_of_transfer_between_reference_frames.py",
+      "        scale_vector(-1, cross_cartesian_vectors(angular_velocity_, position_vector_)))", "        cross_cartesian_vectors(angular_velocity_, position_vector_))", "P6")
+
+
+_orig_register = register
+
+
+def register(m):
+    _orig_register(m)
+    _more(m)
